@@ -1,7 +1,7 @@
 (* C20 - proofs about the DiskCache model (model/C20Cache.v): get after set (None included), absent keys,
    frame, and refinement of a dict under the callers' key discipline; link with the image cache of C20Doc. *)
 From Coq Require Import List String Bool Arith Lia.
-Require Import WV.model.C20Cache WV.model.C20Url WV.model.C20Doc.
+Require Import WV.model.C20Cache WV.model.C20Url WV.model.C20Doc WV.proofs.C20_doc.
 Import ListNotations.
 Open Scope string_scope.
 Open Scope list_scope.
@@ -59,7 +59,7 @@ Section CacheProofs.
     - specialize (IH Hy s Hs). destruct (dc_run digest s r) as [ob s']. exact IH.
     - specialize (IH Hy s Hs). destruct (dc_run digest s r) as [ob s']. exact IH.
     - specialize (IH Hy (dc_reopen s)). destruct (dc_run digest (dc_reopen s) r) as [ob s']. simpl in *.
-      apply IH. unfold dc_get, dc_reopen in *. simpl. destruct (afind (dc_mem s) k); [discriminate|exact Hs].
+      apply IH. reflexivity.
   Qed.
 
   Lemma dc_fresh_absent k : dget dc_empty k = None /\ dcontains dc_empty k = false.
@@ -116,36 +116,52 @@ Proof.
   exists (dc_set (fun x => x) dc_empty "k" (VObj None)), "k", (VBytes "data"). simpl. discriminate.
 Qed.
 
-(* ---- the image cache of the resource state machine (C20Doc.cache: url -> loaded?) kept in a DiskCache:
+(* ---- the image cache of the resource state machine (C20Doc.cache: request key -> loaded?) kept in a
+   DiskCache: the key is spelled as a string (f'{url} {orientation} {image_options}', any injective spelling),
    the memory layer holds an object for a loaded image and None for a failed one *)
 Definition obj_of (ok : bool) : value := VObj (if ok then Some 1 else None).
 Definition loaded_of (v : value) : bool := match v with VObj (Some _) => true | _ => false end.
-Definition mem_of (c : cache) : list (string * value) := map (fun p => (fst p, obj_of (snd p))) c.
 
-Lemma afind_mem_of c u : afind (mem_of c) u = option_map obj_of (cfind c u).
-Proof.
-  induction c as [|[k v] c IH]; [reflexivity|]. simpl. destruct (k =? u); [reflexivity|exact IH].
-Qed.
+Section ImageCache.
+  Variable show : rkey -> string.
+  Hypothesis show_injective : forall a b, show a = show b -> a = b.
 
-(* whatever files the folder holds for other keys, the DiskCache answers for image URLs exactly like the
-   association list of the machine, failed images (None) included; m_get's update is a set *)
-Theorem diskcache_is_image_cache digest (c : cache) disk u :
-  afind disk (digest u) = None ->
-  let s := {| dc_mem := mem_of c; dc_disk := disk |} in
-  option_map loaded_of (dc_get digest s u) = cfind c u /\
-  dc_contains digest s u = is_some (cfind c u) /\
-  forall ok, dc_mem (dc_set digest s u (obj_of ok)) = mem_of ((u, ok) :: c).
-Proof.
-  intros Hd s. unfold dc_get, dc_contains. simpl. rewrite afind_mem_of, Hd.
-  destruct (cfind c u) as [ok|]; simpl.
-  - repeat split; destruct ok; reflexivity.
-  - repeat split.
-Qed.
+  Definition mem_of (c : cache) : list (string * value) := map (fun p => (show (fst p), obj_of (snd p))) c.
+
+  Lemma show_eqb a b : (show a =? show b) = rkey_eqb a b.
+  Proof.
+    destruct (show a =? show b) eqn:E.
+    - apply String.eqb_eq in E. apply show_injective in E. subst. symmetry. apply rkey_eqb_refl.
+    - destruct (rkey_eqb a b) eqn:E'; [|reflexivity].
+      apply rkey_eqb_eq in E'. subst. rewrite String.eqb_refl in E. discriminate.
+  Qed.
+
+  Lemma afind_mem_of c k : afind (mem_of c) (show k) = option_map obj_of (cfind c k).
+  Proof.
+    induction c as [|[k' v] c IH]; [reflexivity|]. simpl. rewrite show_eqb.
+    destruct (rkey_eqb k' k); [reflexivity|exact IH].
+  Qed.
+
+  (* whatever files the folder holds for other keys, the DiskCache answers for image keys exactly like the
+     association list of the machine, failed images (None) included; m_get's update is a set *)
+  Theorem diskcache_is_image_cache digest (c : cache) disk k :
+    afind disk (digest (show k)) = None ->
+    let s := {| dc_mem := mem_of c; dc_disk := disk |} in
+    option_map loaded_of (dc_get digest s (show k)) = cfind c k /\
+    dc_contains digest s (show k) = is_some (cfind c k) /\
+    forall ok, dc_mem (dc_set digest s (show k) (obj_of ok)) = mem_of ((k, ok) :: c).
+  Proof.
+    intros Hd s. unfold dc_get, dc_contains. simpl. rewrite afind_mem_of, Hd.
+    destruct (cfind c k) as [ok|]; simpl.
+    - repeat split; destruct ok; reflexivity.
+    - repeat split.
+  Qed.
+End ImageCache.
 
 Example cache_example :
   fst (dc_run (fun k => k) dc_empty
          [OContains "u"; OSet "u" (VObj None); OContains "u"; OGet "u"; OSet "id-source-" (VBytes "PNG");
           OGet "id-source-"; OReopen; OContains "u"; OGet "id-source-"; OGet "u"])
   = [ObsIn false; ObsSet; ObsIn true; ObsGet (Some (VObj None)); ObsSet; ObsGet (Some (VBytes "PNG"));
-     ObsSet; ObsIn false; ObsGet (Some (VBytes "PNG")); ObsGet None].
+     ObsSet; ObsIn false; ObsGet None; ObsGet None].
 Proof. reflexivity. Qed.
